@@ -4,8 +4,10 @@ package c03
 
 import (
 	"bytes"
+	"encoding/binary"
 	"encoding/json"
 	"fmt"
+	"io"
 	"os"
 	"reflect"
 	"strings"
@@ -409,6 +411,159 @@ func drawSeq(d gen.D) seqCase {
 	return c
 }
 
+// declaredSizes: headers that announce a data section of 2^31-1, 2^31, 2^32-16
+// bytes in front of a body of three records. Decode runs out of input and
+// says so; the messages it had routed by then are in the File it returns with
+// the error, in order (nothing about a size makes the decoder give up before
+// it has read what is there).
+func declaredSizes(rec *hx.Recorder) {
+	s := &fitmodel.Stream{HeaderSize: 12, Proto: 0x20, Recs: []fitmodel.Rec{
+		{IsDef: true, Global: 0, Fields: []fitmodel.FieldDef{{Num: 0, Size: 1, Base: 0}}}, {Raw: []byte{4}},
+		{IsDef: true, Local: 1, Global: 20, Fields: []fitmodel.FieldDef{{Num: 3, Size: 1, Base: 2}}},
+		{Local: 1, Raw: []byte{100}}, {Local: 1, Raw: []byte{101}}, {Local: 1, Raw: []byte{102}},
+	}}
+	whole := s.Bytes()
+	n := int64(0)
+	for _, size := range []uint32{0x7FFFFFFF, 0x80000000, 0x80000001, 0xFFFFFFF0, 0x00FFFFFF} {
+		img := append([]byte(nil), whole[:len(whole)-2]...)
+		binary.LittleEndian.PutUint32(img[4:], size)
+		n++
+		var f *fit.File
+		var err error
+		if p := oracle.Catch(func() { f, err = fit.Decode(bytes.NewReader(img)) }); p != nil {
+			rec.Fail("declared-sizes", "", fmt.Sprintf("declared data size %d: Decode panicked: %v", size, p), typeCase{int(size % 251)})
+			continue
+		}
+		var got []byte
+		if f != nil {
+			if a, aerr := f.Activity(); aerr == nil && a != nil {
+				for _, r := range a.Records {
+					got = append(got, r.HeartRate)
+				}
+			}
+		}
+		if err == nil || !bytes.Equal(got, []byte{100, 101, 102}) {
+			rec.Fail("declared-sizes", "", fmt.Sprintf("header declares %d data bytes, the input ends after three records: Decode returned err=%v and records %v (want an error and the three records 100, 101, 102 in the File returned with it)", size, err, got), typeCase{int(size % 251)})
+		}
+	}
+	rec.Eval("declared-sizes", n)
+	rec.NonTrivialEnum(n)
+}
+
+// bigGen streams a well-formed activity file of more than 2 GiB without
+// holding it: file_id, record(100), nBig unknown messages of bigLen bytes,
+// record(101), file CRC.
+type bigGen struct {
+	head, tail []byte
+	nBig       int
+	bigLen     int
+	crc        uint16
+	phase, i   int
+	off        int
+	table      [256]uint16
+	filler     []byte
+}
+
+func (g *bigGen) feed(p []byte) {
+	for _, x := range p {
+		g.crc = (g.crc >> 8) ^ g.table[byte(g.crc)^x]
+	}
+}
+
+func (g *bigGen) Read(p []byte) (int, error) {
+	for {
+		var src []byte
+		switch g.phase {
+		case 0:
+			src = g.head
+		case 1:
+			if g.i >= g.nBig {
+				g.phase, g.off = 2, 0
+				continue
+			}
+			src = g.filler
+		case 2:
+			src = g.tail
+		case 3:
+			src = []byte{byte(g.crc), byte(g.crc >> 8)}
+		default:
+			return 0, io.EOF
+		}
+		if g.off >= len(src) {
+			g.off = 0
+			switch g.phase {
+			case 1:
+				g.i++
+			default:
+				g.phase++
+			}
+			continue
+		}
+		n := copy(p, src[g.off:])
+		if g.phase < 3 {
+			g.feed(src[g.off : g.off+n])
+		}
+		g.off += n
+		return n, nil
+	}
+}
+
+// twoGiB (thorough tier): a real file of more than 2^31 bytes, streamed. Both
+// records, before and after two gigabytes of unknown messages, are in the
+// container, in order.
+func twoGiB(rec *hx.Recorder) {
+	const bigLen = 255 * 255
+	nBig := (1<<31)/(bigLen+1) + 12
+	def := fitmodel.Rec{IsDef: true, Local: 2, Global: 0xFF50}
+	for i := 0; i < 255; i++ {
+		num := byte(i)
+		if num == 253 {
+			num = 254
+		}
+		def.Fields = append(def.Fields, fitmodel.FieldDef{Num: num, Size: 255, Base: 0x0D})
+	}
+	pre := &fitmodel.Stream{Recs: []fitmodel.Rec{
+		{IsDef: true, Global: 0, Fields: []fitmodel.FieldDef{{Num: 0, Size: 1, Base: 0}}}, {Raw: []byte{4}},
+		{IsDef: true, Local: 1, Global: 20, Fields: []fitmodel.FieldDef{{Num: 3, Size: 1, Base: 2}}},
+		{Local: 1, Raw: []byte{100}}, def,
+	}}
+	var body []byte
+	for i := range pre.Recs {
+		body = pre.Recs[i].AppendTo(body)
+	}
+	tail := (&fitmodel.Rec{Local: 1, Raw: []byte{101}}).AppendTo(nil)
+	dataSize := len(body) + nBig*(bigLen+1) + len(tail)
+	g := &bigGen{nBig: nBig, bigLen: bigLen, tail: tail}
+	for i := range g.table {
+		g.table[i] = fitmodel.CRCStep(0, byte(i))
+	}
+	g.head = append((&fitmodel.Stream{HeaderSize: 12, Proto: 0x20}).Header(dataSize), body...)
+	g.filler = make([]byte, bigLen+1)
+	g.filler[0] = 2 // record header: local type 2
+	for i := 1; i < len(g.filler); i++ {
+		g.filler[i] = byte(i * 31)
+	}
+	var f *fit.File
+	var err error
+	if p := oracle.Catch(func() { f, err = fit.Decode(g) }); p != nil {
+		rec.Fail("two-gib", "", fmt.Sprintf("Decode of a %d-byte file panicked: %v", dataSize+14, p), typeCase{0})
+		return
+	}
+	rec.Eval("two-gib", 1)
+	rec.NonTrivialEnum(1)
+	var got []byte
+	if f != nil {
+		if a, aerr := f.Activity(); aerr == nil && a != nil {
+			for _, r := range a.Records {
+				got = append(got, r.HeartRate)
+			}
+		}
+	}
+	if err != nil || !bytes.Equal(got, []byte{100, 101}) {
+		rec.Fail("two-gib", "", fmt.Sprintf("a well-formed activity file with a data section of %d bytes (two records around %d unknown messages): err=%v records=%v, want the records 100 and 101", dataSize, nBig, err, got), typeCase{0})
+	}
+}
+
 func TestC03(t *testing.T) {
 	hx.Main(t, "C03", func(rec *hx.Recorder) {
 		if rp, ok := hx.LoadReplay(); ok {
@@ -420,6 +575,10 @@ func TestC03(t *testing.T) {
 				if msg, ok := checkTypeByte(c.Type); !ok {
 					rec.Fail(rp.Sub, "", msg, c)
 				}
+			case "declared-sizes":
+				declaredSizes(rec)
+			case "two-gib":
+				twoGiB(rec)
 			default:
 				var c seqCase
 				json.Unmarshal(rp.Case, &c)
@@ -428,6 +587,13 @@ func TestC03(t *testing.T) {
 				}
 			}
 			return
+		}
+
+		if hx.FirstShard() {
+			declaredSizes(rec)
+			if hx.Thorough() {
+				twoGiB(rec)
+			}
 		}
 
 		if hx.FirstShard() {
